@@ -8,4 +8,4 @@ Extraction "../build/extracted/abi_model.ml"
   Spec.flatten Spec.elem_size Spec.alignment Spec.store Spec.load Spec.lower_flat Spec.lift_flat Spec.mstate0
   Ty.has_type Spec.valid_ty
   Check.check_lower_flat Check.check_lower_to_memory Check.check_lift_from_memory Check.check_dealloc
-  Check.check_post_return Check.has_heap Check.owned_handles Sem.run_events.
+  Check.check_post_return Check.check_call_import Check.check_call_export Check.has_heap Check.owned_handles Sem.run_events.
